@@ -98,3 +98,20 @@ impl LuaIndex for LuaOperatorIndex {
         self.in_filed_operator_map.clear();
     }
 }
+
+/// Entry counts of every map of this index (verification hook, add-only, off by default).
+#[cfg(feature = "verif")]
+impl LuaOperatorIndex {
+    pub fn verif_sizes(&self) -> Vec<(String, usize)> {
+        let p = "operator";
+        let mut v: Vec<(String, usize)> = Vec::new();
+        let mut put = |name: &str, n: usize| v.push((format!("{p}.{name}"), n));
+        put("operators", self.operators.len());
+        put("type_operators_map", self.type_operators_map.len());
+        put("type_operators_map.items", self.type_operators_map.values().flat_map(|m| m.values()).map(|s| s.len()).sum());
+        put("in_filed_operator_map", self.in_filed_operator_map.len());
+        put("in_filed_operator_map.items", self.in_filed_operator_map.values().map(|s| s.len()).sum());
+
+        v
+    }
+}
